@@ -252,8 +252,11 @@ theorem trLoop_cycinv {c : Circuit} {next : Label → List Label} :
 /-! ## the check itself -/
 
 /-- a rank on the part of the circuit the outputs depend on: no cycle is reachable from the outputs -/
-def AcyclicFromOutputs (c : Circuit) : Prop :=
-  ∃ r : Label → Nat, ∀ l, Reach c.opsOf c.outputs l → ∀ x ∈ c.opsOf l, r x < r l
+def AcyclicFrom (c : Circuit) (q : List Label) : Prop :=
+  ∃ r : Label → Nat, ∀ l, Reach c.opsOf q l → ∀ x ∈ c.opsOf l, r x < r l
+
+/-- a rank on the part of the circuit the outputs depend on: no cycle is reachable from the outputs -/
+abbrev AcyclicFromOutputs (c : Circuit) : Prop := AcyclicFrom c c.outputs
 
 theorem isEmpty_false_of_ne' {α} {l : List α} (h : l ≠ []) : l.isEmpty = false := by
   cases l with
@@ -261,16 +264,16 @@ theorem isEmpty_false_of_ne' {α} {l : List α} (h : l ≠ []) : l.isEmpty = fal
   | cons a r => rfl
 
 /-- no reachable cycle ⇒ the check does not raise `CircuitValidationError` -/
-theorem cycleCheck_acyclic {c : Circuit} (h : AcyclicFromOutputs c) : hasCycleCheck c ≠ .ok true := by
+theorem cycleCheckFrom_acyclic {c : Circuit} (start : Option (List Label)) (h : AcyclicFrom c (start.getD c.outputs)) : hasCycleCheckFrom c start ≠ .ok true := by
   obtain ⟨r, hr⟩ := h
-  unfold hasCycleCheck
-  have : traverse c false false none false true ≠ .error "CircuitValidationError" := by
+  unfold hasCycleCheckFrom
+  have : traverse c false false start false true ≠ .error "CircuitValidationError" := by
     unfold traverse
     split
     · simp
-    · simp only [Bool.false_eq_true, if_false, Option.getD_none]
+    · simp only [Bool.false_eq_true, if_false]
       have hl := trLoop_no_cve (c := c) (ab := true) hr
-        (2 * (c.outputs.length + c.gates.length + totalDeg c c.opsOf) + 2) ⟨c.outputs, fun _ => .unv, []⟩
+        (2 * ((start.getD c.outputs).length + c.gates.length + totalDeg c c.opsOf) + 2) ⟨start.getD c.outputs, fun _ => .unv, []⟩
         (tinv_init _ _)
         ⟨fun l hl => (by cases hl), fun l => (by simp [exits]), (by simp [exits])⟩
         ⟨fun _ u _ _ _ hu => (by cases hu), fun u hu => (by cases hu), fun e1 l e2 he => (by simp [exits] at he)⟩
@@ -287,9 +290,9 @@ theorem cycleCheck_acyclic {c : Circuit} (h : AcyclicFromOutputs c) : hasCycleCh
   · simp
 
 /-- the check returns without raising ⇒ no cycle is reachable from the outputs -/
-theorem cycleCheck_false {c : Circuit} (h : hasCycleCheck c = .ok false) : AcyclicFromOutputs c := by
-  unfold hasCycleCheck at h
-  cases ht : traverse c false false none false true with
+theorem cycleCheckFrom_false {c : Circuit} (start : Option (List Label)) (h : hasCycleCheckFrom c start = .ok false) : AcyclicFrom c (start.getD c.outputs) := by
+  unfold hasCycleCheckFrom at h
+  cases ht : traverse c false false start false true with
   | error e =>
     rw [ht] at h
     split at h
@@ -306,14 +309,14 @@ theorem cycleCheck_false {c : Circuit} (h : hasCycleCheck c = .ok false) : Acycl
         apply opsOf_not_mem
         simp [Circuit.labels, hne]
       rw [this] at hx; cases hx
-    · obtain ⟨hnd, hreach, _⟩ := dfs_exits_exact false none false true hne ht
-      simp only [Bool.false_eq_true, if_false, Option.getD_none] at hreach
+    · obtain ⟨hnd, hreach, _⟩ := dfs_exits_exact false start false true hne ht
+      simp only [Bool.false_eq_true, if_false] at hreach
       -- post-order of the exits
       have hpost : ∀ e1 l e2, exits log = e1 ++ l :: e2 → ∀ x ∈ c.opsOf l, x ∈ e1 := by
         unfold traverse at ht
-        simp only [isEmpty_false_of_ne' hne, Bool.false_eq_true, if_false, Option.getD_none] at ht
-        cases hl : trLoop c false true c.opsOf (2 * (c.outputs.length + c.gates.length + totalDeg c c.opsOf) + 2)
-            ⟨c.outputs, fun _ => .unv, []⟩ with
+        simp only [isEmpty_false_of_ne' hne, Bool.false_eq_true, if_false] at ht
+        cases hl : trLoop c false true c.opsOf (2 * ((start.getD c.outputs).length + c.gates.length + totalDeg c c.opsOf) + 2)
+            ⟨start.getD c.outputs, fun _ => .unv, []⟩ with
         | error e => simp [hl] at ht
         | ok s =>
           simp only [hl, Except.ok.injEq] at ht
@@ -414,18 +417,18 @@ theorem trLoop_error {c : Circuit} {bfs ab : Bool} {next : Label → List Label}
 /-- **a reachable cycle makes the check raise**: on a circuit with distinct labels whose outputs and
 operands all exist, if no rank exists on the part reachable from the outputs (i.e. there is a cycle
 there), `check_circuit_has_no_cycles` raises `CircuitValidationError` -/
-theorem cycleCheck_cyclic {c : Circuit} (hnd : c.labels.Nodup)
-    (hcl : ∀ l, Reach c.opsOf c.outputs l → c.hasGate l = true)
-    (hcyc : ¬ AcyclicFromOutputs c) : hasCycleCheck c = .ok true := by
-  cases hres : hasCycleCheck c with
+theorem cycleCheckFrom_cyclic {c : Circuit} (start : Option (List Label)) (hnd : c.labels.Nodup)
+    (hcl : ∀ l, Reach c.opsOf (start.getD c.outputs) l → c.hasGate l = true)
+    (hcyc : ¬ AcyclicFrom c (start.getD c.outputs)) : hasCycleCheckFrom c start = .ok true := by
+  cases hres : hasCycleCheckFrom c start with
   | ok b =>
     cases b with
     | true => rfl
-    | false => exact absurd (cycleCheck_false hres) hcyc
+    | false => exact absurd (cycleCheckFrom_false start hres) hcyc
   | error e =>
     exfalso
-    unfold hasCycleCheck at hres
-    cases ht : traverse c false false none false true with
+    unfold hasCycleCheckFrom at hres
+    cases ht : traverse c false false start false true with
     | ok log => rw [ht] at hres; cases hres
     | error e' =>
       -- the only possible error is the validation error
@@ -433,9 +436,9 @@ theorem cycleCheck_cyclic {c : Circuit} (hnd : c.labels.Nodup)
         unfold traverse at ht
         split at ht
         · cases ht
-        · simp only [Bool.false_eq_true, if_false, Option.getD_none] at ht
-          cases hl : trLoop c false true c.opsOf (2 * (c.outputs.length + c.gates.length + totalDeg c c.opsOf) + 2)
-              ⟨c.outputs, fun _ => .unv, []⟩ with
+        · simp only [Bool.false_eq_true, if_false] at ht
+          cases hl : trLoop c false true c.opsOf (2 * ((start.getD c.outputs).length + c.gates.length + totalDeg c c.opsOf) + 2)
+              ⟨start.getD c.outputs, fun _ => .unv, []⟩ with
           | ok s => simp [hl] at ht
           | error e2 =>
             simp only [hl, Except.error.injEq] at ht
@@ -452,5 +455,22 @@ theorem cycleCheck_cyclic {c : Circuit} (hnd : c.labels.Nodup)
       subst this
       rw [ht] at hres
       simp at hres
+
+theorem cycleCheck_acyclic {c : Circuit} (h : AcyclicFromOutputs c) : hasCycleCheck c ≠ .ok true :=
+  cycleCheckFrom_acyclic none h
+
+theorem cycleCheck_false {c : Circuit} (h : hasCycleCheck c = .ok false) : AcyclicFromOutputs c :=
+  cycleCheckFrom_false none h
+
+theorem cycleCheck_cyclic {c : Circuit} (hnd : c.labels.Nodup)
+    (hcl : ∀ l, Reach c.opsOf c.outputs l → c.hasGate l = true)
+    (hcyc : ¬ AcyclicFromOutputs c) : hasCycleCheck c = .ok true :=
+  cycleCheckFrom_cyclic none hnd hcl hcyc
+
+/-- the whole-graph check (`start_gates = list(gates)`): silent only if the whole graph has a rank -/
+theorem cycleCheckAll_false {c : Circuit} (h : hasCycleCheckFrom c (some c.labels) = .ok false) :
+    ∃ r : Label → Nat, ∀ l ∈ c.labels, ∀ x ∈ c.opsOf l, r x < r l := by
+  obtain ⟨r, hr⟩ := cycleCheckFrom_false (some c.labels) h
+  exact ⟨r, fun l hl => hr l (.base hl)⟩
 
 end Cirbo
